@@ -5,6 +5,8 @@
 (*   Mode "ep"   : one endpoint; the dimensions named in Exh are enumerated  *)
 (*                 exhaustively, the others drawn at random                  *)
 (*   Mode "pair" : two or three operations on one path item                 *)
+(*   Mode "ext"  : chains of types that extend one another                  *)
+(*   Mode "ring" : types that refer to one another in a cycle                *)
 (*   Mode "random": documents with several types and endpoints (simulate)    *)
 (* Every generated document satisfies WellFormed (checked as an invariant).  *)
 EXTENDS InteropFacts, Json
@@ -102,6 +104,20 @@ ExtDocs ==
 NextExt == step = 0 /\ \E d \in ExtDocs : types' = d /\ eps' = <<>> /\ step' = 1
 
 -----------------------------------------------------------------------------
+(* Mode "ring": object types that refer to one another in a cycle of two or three (an order has lines, a line   *)
+(* names its order), each link plain or an array, required or not; with and without a type that refers to itself *)
+RingDocs ==
+  {<<Obj("Order", <<F("id", "int", FALSE, TRUE, TRUE), F("lines", "ref:Line", a1, r1, FALSE)>>),
+     Obj("Line", <<F("n", "int", FALSE, TRUE, FALSE), F("order", "ref:Order", a2, r2, FALSE)>>)>> :
+       a1 \in BOOLEAN, r1 \in BOOLEAN, a2 \in BOOLEAN, r2 \in BOOLEAN}
+  \cup
+  {<<Obj("Order", <<F("id", "int", FALSE, TRUE, TRUE), F("lines", "ref:Line", a1, TRUE, FALSE)>>),
+     Obj("Line", <<F("item", "ref:Item", FALSE, r1, FALSE)>> \o (IF self THEN <<F("next", "ref:Line", FALSE, FALSE, FALSE)>> ELSE <<>>)),
+     Obj("Item", <<F("name", "string", FALSE, TRUE, FALSE), F("last", "ref:Order", a2, FALSE, FALSE)>>)>> :
+       a1 \in BOOLEAN, r1 \in BOOLEAN, a2 \in BOOLEAN, self \in BOOLEAN}
+NextRing == step = 0 /\ \E d \in RingDocs : types' = d /\ eps' = <<>> /\ step' = 1
+
+-----------------------------------------------------------------------------
 (* Mode "random"                                                           *)
 (* RandomElement is re-evaluated at every use of a LET name, so every       *)
 (* random draw is bound once by ranging over a singleton set.               *)
@@ -163,7 +179,7 @@ AddEp == /\ step = 1 /\ Len(eps) < MaxEps
               eps' = Append(eps, RandEp(c[1], c[2], ObjNames(types)))
          /\ UNCHANGED <<types, step>>
 
-Done == /\ \/ Mode \in {"field", "ep", "pair", "ext"} /\ step = 1
+Done == /\ \/ Mode \in {"field", "ep", "pair", "ext", "ring"} /\ step = 1
            \/ Mode = "random" /\ step = 1
         /\ Emit /\ step' = 2 /\ UNCHANGED <<types, eps>>
 
@@ -171,6 +187,7 @@ Next == \/ Mode = "field" /\ NextField
         \/ Mode = "ep" /\ NextEp
         \/ Mode = "pair" /\ NextPair
         \/ Mode = "ext" /\ NextExt
+        \/ Mode = "ring" /\ NextRing
         \/ Mode = "random" /\ (AddType \/ TypesDone \/ AddEp)
         \/ Done
 Spec == Init /\ [][Next]_gvars
